@@ -22,6 +22,9 @@ func c01t0(a int) int { c01sink += a; c01last = -1; return a*3 + 1 }
 func c01t1(a int) int { c01sink += a; c01last = -1; return a*5 + 2 }
 func c01t2(a int) int { c01sink += a; c01last = -1; return a*7 + 3 }
 
+// c01nopw has the shape of the other targets; index 3 is patched through the assembly function's own address
+func c01nopw(a int) int { return c01nop() + a }
+
 func c01mk(k int) func(int) int {
 	return func(a int) int { c01last = k; return -k }
 }
@@ -32,11 +35,14 @@ func c01fv(f func(int) int) uintptr { return *(*uintptr)(unsafe.Pointer(&f)) }
 func TestVerifC01(t *testing.T) {
 	out := vh.OpenOut()
 	defer out.Close()
-	targets := []func(int) int{c01t0, c01t1, c01t2}
+	targets := []func(int) int{c01t0, c01t1, c01t2, c01nopw}
 	ptrs := make([]uintptr, len(targets))
 	pristine := make([][]byte, len(targets))
 	for i, f := range targets {
 		ptrs[i] = reflect.ValueOf(f).Pointer()
+		if i == 3 {
+			ptrs[i] = c01nopAddr
+		}
 		pristine[i] = append([]byte(nil), memory.RawRead(ptrs[i], 13)...)
 	}
 	for _, op := range vh.ReadOps() {
@@ -104,7 +110,13 @@ func TestVerifC01(t *testing.T) {
 			o := vh.Catch(func() string {
 				switch f[0] {
 				case "rep":
-					g, err := Trampoline(targets[arg], rep(int(vh.I64(f[2]))), nil)
+					var g *Guard
+					var err error
+					if arg == 3 {
+						g, err = PtrTrampoline(ptrs[3], rep(int(vh.I64(f[2]))), nil)
+					} else {
+						g, err = Trampoline(targets[arg], rep(int(vh.I64(f[2]))), nil)
+					}
 					if err != nil {
 						if strings.Contains(err.Error(), "already patched") {
 							return "rej:patched " + show()
